@@ -20,7 +20,7 @@
 //!                                                flag = the callback's 2nd argument ("a next answer exists"), one per item
 //!            | (Lim <answer> ncalls)             (Limited)
 //!            | (Panic "msg") | Timeout | (Abort "why") | Skipped
-//!   ty     ::= (App "label" [<ty> ...]) | (BV i) | (IBV d i) | (Ph u i) | Free
+//!   ty     ::= (App "label" [<ty> ...]) | (BV i) | (IBV d i) | (Ph u i) | Free | (Lt <ty>)   (Lt = a lifetime)
 use chalk_integration::db::ChalkDatabase;
 use chalk_integration::interner::ChalkIr;
 use chalk_integration::lowering::lower_goal;
@@ -139,7 +139,12 @@ impl<'a> Names<'a> {
             GenericArgData::Const(c) => self.cst(c, depth),
         }
     }
+    /// lifetimes are wrapped in `(Lt ..)` so that consumers can ignore them (the properties do
+    /// not compare lifetime constraints, and lifetime values are entangled with them)
     fn lt(&self, l: &Lifetime<ChalkIr>, depth: u32) -> Sexp {
+        Sexp::App("Lt".into(), vec![self.lt_inner(l, depth)])
+    }
+    fn lt_inner(&self, l: &Lifetime<ChalkIr>, depth: u32) -> Sexp {
         match l.data(ChalkIr) {
             LifetimeData::BoundVar(bv) => self.bound(*bv, depth),
             LifetimeData::InferenceVar(v) => app(format!("'?{}", v.index()), vec![]),
